@@ -75,6 +75,9 @@ func (s *kState) FindView(h uint64, r uint32, reason string) (*tmconsensus.Versi
 		if r < cr {
 			return nil, 0, ViewBeforeCommitting
 		}
+
+		// Correct committing height, but a later round than the one being committed.
+		return nil, 0, ViewWrongCommit
 	}
 
 	if h < s.Committing.Height {
